@@ -207,7 +207,7 @@ impl<'a> Eval<'a> {
         self.coverage_gap_g(&*self.geo, acc, a, b)
     }
     pub fn coverage_gap_g(&self, geo: &dyn Geo, acc: &[&St], a: &[f64], b: &[f64]) -> Option<(f64, f64)> {
-        let l = geo.lvs();
+        let l = geo.lvs_ref();
         if !(l > 0.0) || !l.is_finite() {
             return None;
         }
@@ -239,7 +239,7 @@ impl<'a> Eval<'a> {
 
     /// Clause 2 of C03: an invalid stretch of true length >= 1.25 L on the segment.
     pub fn invalid_stretch(&self, geo: &dyn Geo, w: usize, a: &[f64], b: &[f64]) -> Option<f64> {
-        let l = geo.lvs();
+        let l = geo.lvs_ref();
         if !(l > 0.0) || !l.is_finite() {
             return None;
         }
@@ -275,7 +275,7 @@ impl<'a> Eval<'a> {
         let acc = self.accepted(setup_ev, self.out.calls[ci].ev_hi);
         let mut long_segments = 0;
         for i in 0..p.len() - 1 {
-            if g.d(&p[i], &p[i + 1]) > g.lvs() {
+            if g.d(&p[i], &p[i + 1]) > g.lvs_ref() {
                 long_segments += 1;
             }
             if let Some((gap, at)) = self.coverage_gap_g(g, &acc, &p[i], &p[i + 1]) {
@@ -287,7 +287,7 @@ impl<'a> Eval<'a> {
                         fmt_state(&p[i]),
                         fmt_state(&p[i + 1]),
                         g.d(&p[i], &p[i + 1]),
-                        g.lvs()
+                        g.lvs_ref()
                     ),
                 ));
                 break;
